@@ -78,6 +78,28 @@ def exactness(rep, mir, L, n):
             if verdict == 'violated':
                 md = {d.name(): str(model[d]) for d in model.decls() if d.arity() == 0}
                 rep.violated('C08.1A after switch', 'diag.estimator.after_switch', 'after a window switch the estimators in use do not describe the Gaussian window: %s' % md, model=md)
+            # the background estimator that starts at the switch must be *empty*: fed two more draws it has to agree with a brand-new estimator fed the same
+            # two draws (a recycled buffer that keeps old sums would let draws older than two windows into a later transformation)
+            ys = [z3.Real('y_%d' % i) for i in range(2)]
+            def feed(mach, cell):
+                for i in range(2):
+                    col = L.make('DrawGradCollector', {'draw': Seq([Fl(ys[i])]), 'grad': Seq([Fl(-(ys[i] - mean) / (s * s))]), 'is_good': True})
+                    o = vm.run(upd, [Ref(cell), math, Ref(mach.alloc(col))], mach)
+                    if len(o) != 1 or o[0][1] != 'ret': return None
+                    mach = o[0][0]
+                return mach
+            ma = feed(o2[0][0].clone(), sc)
+            (mf, kf, fresh) = vm.run(new, [math, settings, 1000, 0], Machine())[0]; fc = mf.alloc(fresh); mb = feed(mf, fc)
+            if ma is None or mb is None: rep.violated('C08.1A estimator after switch', 'diag.exact.panic', 'update_estimators panics after a switch')
+            else:
+                sa = ma.mem[sc]; sb = mb.mem[fc]; ga = lambda f, fld: L.get('RunningVariance', L.get('Strategy', sa, f, file=F), fld); gb = lambda f, fld: L.get('RunningVariance', L.get('Strategy', sb, f, file=F), fld)
+                diffs = []
+                for (fa, fb) in (('exp_variance_draw_bg', 'exp_variance_draw'), ('exp_variance_grad_bg', 'exp_variance_grad')):
+                    diffs += [ga(fa, 'mean').items[0].v != gb(fb, 'mean').items[0].v, ga(fa, 'variance').items[0].v != gb(fb, 'variance').items[0].v, ga(fa, 'count') != gb(fb, 'count')]
+                verdict, model = rep.check('C08.1A the background estimators started by a switch are empty: after two further draws they equal brand-new estimators fed those two draws', pre + [z3.Or(*diffs)], timeout_ms=120000)
+                if verdict == 'violated':
+                    md = {d.name(): str(model[d]) for d in model.decls() if d.arity() == 0}
+                    rep.violated('C08.1A fresh background after switch', 'diag.estimator.stale', 'the background estimator started by a window switch still carries sums of the retired window (draws older than two windows reach a later transformation): %s' % md, model=md)
     rep.absorb_vm(vm)
     if n == 3: rep.sample({'query': 'C08.1A n=3', 'var_draw term': str(z3.simplify(vx))[:300]})
     if n > 3: return
